@@ -424,6 +424,17 @@ pub mod verif_hooks {
         v
     }
 
+    static POLICY_TRACE: Mutex<Vec<(&'static str, bool)>> = Mutex::new(Vec::new());
+
+    /// record one redirect-policy update (endpoint, redirect)
+    pub fn policy(endpoint: &'static str, redirect: bool) {
+        POLICY_TRACE.lock().unwrap().push((endpoint, redirect));
+    }
+
+    pub fn take_policy_trace() -> Vec<(&'static str, bool)> {
+        std::mem::take(&mut *POLICY_TRACE.lock().unwrap())
+    }
+
     pub fn take_trace() -> Vec<(&'static str, u16, bool)> {
         std::mem::take(&mut *TRACE.lock().unwrap())
     }
